@@ -5,6 +5,7 @@ package harness
 // which count opens and closes and can make the n-th open or write fail.
 
 import (
+	"bytes"
 	"context"
 	"encoding/binary"
 	"fmt"
@@ -239,7 +240,7 @@ func c19exchange(s *srvRun, cl *simClient) (offer, ack bool) {
 }
 
 func TestC19ServerFaults(t *testing.T) {
-	vl := &violationLog{}
+	vl, vl06 := &violationLog{}, &violationLog{}
 	st := newC19stats()
 	const maxN = 17 // the exchange performs 15 opens and 8 writes
 	for _, what := range []string{"open", "write"} {
@@ -306,6 +307,18 @@ func TestC19ServerFaults(t *testing.T) {
 				if o, cl := seg.Counters(); o != cl+1 {
 					vl.add("c19-fault", "%s (%s): opens=%d closes=%d at quiescence", desc, failed, o, cl)
 				}
+				// whatever did get out after the fault is still addressed as C06 says: a datagram for one address goes to that client's
+				// hardware address, a datagram for everybody to the broadcast address - a reply that could not be sent is not re-sent otherwise
+				for _, f := range seg.Frames() {
+					if rp := parseReply(f.Payload); f.Kind == rsocks.KindIP && rp.ok && rp.msg.op == 2 && len(f.EthDst) == 6 {
+						atomic.AddInt64(&vl06.n, 1)
+						all := bytes.Equal(f.EthDst, []byte{0xff, 0xff, 0xff, 0xff, 0xff, 0xff})
+						// (a NAK is a broadcast datagram framed for the client; nothing for one address is ever framed for everybody)
+						if (all && rp.dst != 0xffffffff) || (!all && !bytes.Equal(f.EthDst, rp.msg.chaddr[:6])) {
+							vl06.add("c06-frame-after-fault", "%s (%s): reply type %d for %s (client %x) framed for %s", desc, failed, rp.typ, ipStr(rp.dst), rp.msg.chaddr, f.EthDst)
+						}
+					}
+				}
 				s.cancel()
 				synctest.Wait()
 				if o, cl := seg.Counters(); o != cl || !goroutinesAt(base0, 0) {
@@ -317,6 +330,8 @@ func TestC19ServerFaults(t *testing.T) {
 			})
 		}
 	}
+	vl06.write(t, "c06fault", map[string]interface{}{"distinct_nontrivial": int(atomic.LoadInt64(&vl06.n)), "histogram": map[string]int{"reply-frames-after-a-fault": int(atomic.LoadInt64(&vl06.n))},
+		"samples": []string{"every reply frame of the fault-injection exchanges (n-th open / write fails): a frame for everybody carries a datagram for everybody, a frame for one station goes to the client's hardware address"}})
 	vl.write(t, "c19srvfault", st.meta(2*maxN, "n-th socket open / n-th write fails during DISCOVER+REQUEST (n = 1..17); then a second client must be served; accounting at quiescence and after cancel"))
 }
 
